@@ -239,7 +239,7 @@ def gen_mixed(chk):
         full = thorough and len(obs) == 2
         combos = ([(ck, api, sh, ALGOS3[(i + k) % 3])
                    for k, (ck, api, sh) in enumerate(itertools.product(CHECKERS3, ("sync", "async"), SHAPES3))] if full else
-                  [(CHECKERS3[i % 3], ("async", "sync", "async")[(i // 3) % 3], SHAPES3[(i // 9) % 3], ALGOS3[(i // 27) % 3])])
+                  [(CHECKERS3[i % 3], ("async", "sync", "async", "async")[(i // 3) % 4], SHAPES3[(i // 12) % 3], ALGOS3[(i // 36) % 3])])
         for checker, api, shape, algo in combos:
             cases.append({"fam": "engine_mixed", "obligations": obs, "ctx": ctx, "shape": shape, "algo": algo,
                           "effect": "permit", "checker": checker, "api": api, "cached": (i // 2) % 4 == 1})
@@ -358,12 +358,13 @@ def gen_morph(chk):
     for obs, kind, ctx in triples:
         lines.append(lib.model_call("oblig.check", "permit", perturb_obs(obs, kind), ctx))
         lines.append(lib.model_call("oblig.check", "permit", obs, ctx))
-    outs = lib.run_model(RUNNER, lines)
+    outs = lib.run_model(RUNNER, lines, chunk=max(100, len(lines) // 8 + 1))
     sens = [outs[2 * k] != outs[2 * k + 1] for k in range(len(triples))]
-    cases, i, dull = [], 0, chk.rng.randrange(8)
+    cases, i, dull, keen = [], 0, chk.rng.randrange(8), chk.rng.randrange(2)
     for (obs, kind, ctx), sensitive in zip(triples, sens):
         dull += 0 if sensitive else 1
-        # quick: every sensitive history; of the others 1 in 4 (checker called directly) / 1 in 8 (through Guard)
+        # quick: checker called directly: every sensitive history, 1 in 4 of the others; through Guard (several
+        # evaluations each): every second sensitive history, 1 in 8 of the others
         for decision in ("permit", "deny"):
             for k, inst in enumerate(("same-checker", "new-checker")):
                 if thorough or (decision == "permit" and (sensitive or dull % 4 == 0)) or (decision == "deny" and i % 6 == k):
@@ -371,12 +372,13 @@ def gen_morph(chk):
                                   "perturb": kind, "instance": inst, "raw": ("same", "fresh")[(i // 2) % 2],
                                   "sensitive": sensitive and decision == "permit"})
                 i += 1
-        if not (thorough or sensitive or dull % 8 == 0):
+        keen += 1 if sensitive else 0
+        if not (thorough or (sensitive and keen % 2 == 0) or (not sensitive and dull % 8 == 0)):
             continue
         combos = ([(ro, sh, ca, api, ("default", "shared")[(i + k) % 2])
                    for k, (ro, sh, ca, api) in enumerate(itertools.product(ROUTES, SHAPES3, (False, True), ("sync", "async")))]
                   if thorough else
-                  [(ROUTES[i % 3], SHAPES3[(i // 3) % 3], (i // 9) % 3 == 1, ("async", "sync", "async")[(i // 27) % 3],
+                  [(ROUTES[i % 3], SHAPES3[(i // 3) % 3], (i // 9) % 3 == 1, ("async", "sync", "async", "async")[(i // 27) % 4],
                     ("default", "shared")[(i // 2) % 2])])
         for route, shape, cached, api, checker in combos:
             cases.append({"fam": "engine_morph", "obligations": obs, "ctx": ctx, "perturb": kind, "route": route,
@@ -709,7 +711,7 @@ def check_morph_direct(chk, cases):
     if not cases:
         return
     lines = [lib.model_call("oblig.check", c["decision"], c["obligations"], c["ctx"]) for c in cases]
-    outs = [lib.dec(x) for x in lib.run_model(RUNNER, lines)]
+    outs = [lib.dec(x) for x in lib.run_model(RUNNER, lines, chunk=max(100, len(lines) // 8 + 1))]
     for c, m in zip(cases, outs):
         sensitive = bool(c.get("sensitive"))          # (gen_morph) the model judges the earlier state differently
         chk.count("fam:" + c["fam"])
@@ -807,6 +809,6 @@ def run(chk):
     chk.exhaustive = True                             # the enumerated pools; the families below are sampled in the quick tier
     if chk.tier != "thorough":
         chk.extra["sampled_in_quick"] = ("mixed: every list under one decision, 1 in 5 under both and through Guard; "
-                                         "morph_direct / engine_morph: every history whose earlier state the model judges "
-                                         "differently, 1 in 4 / 1 in 8 of the others; thorough: all, with the product of "
+                                         "morph_direct / engine_morph: every / every second history whose earlier state the model "
+                                         "judges differently, 1 in 4 / 1 in 8 of the others; thorough: all, with the product of "
                                          "routes x shapes x cache x API")
